@@ -327,13 +327,29 @@ def probe_check(tier, seed, stats):
 LIN_MACROS = {"send": 4, "sendt": 2, "sendot": 2, "try": 3, "recv": 4, "recvt": 2, "tryr": 3, "drain": 2, "asend1": 2, "asend2": 2, "asenddrop": 2,
               "arecv1": 2, "arecv2": 2, "arecvdrop": 2, "stream3": 1, "close": 1, "len": 1, "isfull": 1, "scount": 1, "rcount": 1, "isclosed": 1,
               "clones": 1, "drops": 1, "dropr": 1, "isdisc": 1}
-LIN_STRATS = ("random", "uniform", "pct:2", "pct:3", "after:unlock:1", "after:unlock:2", "after:st:1", "after:pwrite:1", "after:pread:1", "after:guard:2")
+LIN_STRATS = ("random", "uniform", "pct:2", "pct:3", "after:unlock:1", "after:unlock:2", "after:unlock:3", "after:st:1", "after:pwrite:1", "after:pread:1", "after:guard:2")
 FLAVOUR_MACROS = dict(MIXED, convs=3, convr=3, clonesx=3, clonerx=3, scount=1, rcount=1)
+
+
+def observer_templates():
+    """Every observer raced against calls that change each of the things it reads: the observing thread first gives
+    up its own sender (so that counts can reach zero), observes, then looks at what is really there."""
+    out = []
+    for obs in ("isterm r", "isdisc r", "isdisc s", "len r", "isempty r", "isfull s", "scount r", "rcount s", "isclosed s"):
+        for cap in ("1", "u"):
+            if obs.endswith(" r"):
+                out.append(f"cap={cap} class=w par=1 seed=1 strategy=random tickp=30\nt0: drop s;{obs};tryr 0\nt1: send 31;drop s\n")
+            else:
+                out.append(f"cap={cap} class=w par=1 seed=1 strategy=random tickp=30\nt0: drop r;{obs};try 2 0 0\nt1: tryr 0;drop r\n")
+            out.append(f"cap={cap} class=w par=1 seed=1 strategy=random tickp=30\nt0: {obs};{obs}\nt1: send 31;drop s;drop r\nt2: tryr 0;close r\n")
+    return out
 
 
 def lin_c03(tier, seed):
     n = 150 if tier == "quick" else 4000
-    return [(Profile("lin", LIN_MACROS, threads=(2, 3), ops=(1, 2), classes=("w",), n=n, strategies=LIN_STRATS, extra="tickp=30"), 6 if tier == "quick" else 12)]
+    p = Profile("lin", LIN_MACROS, threads=(2, 3), ops=(1, 2), classes=("w",), n=n, strategies=LIN_STRATS, extra="tickp=30")
+    p.templates = observer_templates()
+    return [(p, 6 if tier == "quick" else 12)]
 
 
 PROPS = {
